@@ -77,7 +77,7 @@ func streamRoute(c *ctx) {
 		// the bind ADDRESS is one no responder lives on and not the one the kernel would pick by itself
 		u := uhppote.NewUHPPOTE(types.BindAddrFrom(netip.MustParseAddr("127.0.0.9"), uint16(bindPort)), types.BroadcastAddrFrom(bap.Addr(), bap.Port()),
 			types.ListenAddrFrom(netip.MustParseAddr("127.0.0.1"), 60001), T, devices, false)
-		_, err := u.GetCardByID(serial, 424242)
+		_, err := getCard(u, serial, 424242)
 		time.Sleep(20 * time.Millisecond)
 		heard := []string{}
 		src := ""
